@@ -521,6 +521,33 @@ def _run_parse(case, held):
             held.append(c.value)
     obs = {"errors": H.enc_errors(rec.validation_errors, names), "len": len(rec), "slots": slots, "str": _str_of(rec)}
     extra = {"names": names, "values": [H.enc_value(rec.value(n)) for n in names]}
+    # the other ways to the same column: MafColumnRecord.build(..., scheme=) and build_nullable must agree with from_line
+    fields = case["fields"]
+    if len(fields) == len(names):
+        from maflib.column import MafColumnRecord
+        import random as _r
+        rr = _r.Random(len(line))
+        probe = sorted(set(case.get("hit", [])) | {rr.randrange(len(names)) for _ in range(3)})
+        via = []
+        for i in probe:
+            if i >= len(names):
+                continue
+            try:
+                c = MafColumnRecord.build(name=names[i], value=fields[i], column_index=i, scheme=scheme)
+                v = ["ok", type(c).__name__, c.column_index, H.enc_value(c.value), bool(c.validate(scheme=scheme))]
+            except Exception as e:
+                v = ["raise", H.exc_code(e)]
+            stored = slots[i] if i < len(slots) else None
+            cls = scheme.column_class(names[i])
+            nb = None
+            if cls.is_nullable():
+                try:
+                    n = cls.build_nullable(name=names[i], column_index=i)
+                    nb = ["ok", bool(n.is_null()), bool(n.validate(scheme=scheme))]
+                except Exception as e:
+                    nb = ["raise", H.exc_code(e)]
+            via.append([i, v, stored, nb])
+        extra["via_scheme"] = via
     # C04: render, re-parse, render again
     if not obs["errors"] and obs["str"][0] == "ok":
         try:
@@ -611,6 +638,18 @@ def oracle_c01(case, obs):
                     out.append("accepted-with-wrong-value | col %s %r -> %s expected %s" % (names[i], fields[i], s[2], z[1]))
             elif not rejects and not dcs:
                 out.append("in-domain-field-missing | col %s" % names[i])
+    for i, v, stored, nb in obs["extra"].get("via_scheme", []):
+        if zones[i][0] == "dontcare":
+            continue
+        if v[0] == "ok" and not v[4]:
+            if stored is None:
+                out.append("build-with-scheme-accepts-what-from-line-rejects | col %s %r" % (names[i], fields[i]))
+            elif v[2] != i or v[3] != stored[2]:
+                out.append("build-with-scheme-differs-from-from-line | col %s %r: %s vs %s" % (names[i], fields[i], v[1:4], stored))
+        elif stored is not None:
+            out.append("build-with-scheme-rejects-what-from-line-accepts | col %s %r: %s" % (names[i], fields[i], v))
+        if nb is not None and nb != ["ok", True, False]:
+            out.append("build-nullable-does-not-give-a-valid-null-column | col %s: %s" % (names[i], nb))
     if not rejects and not dcs:
         if errs:
             out.append("all-fields-in-domain-but-errors | %s" % errs[:3])
